@@ -71,6 +71,26 @@ def ndsMask (pts : List Vec) (order : List Nat) : List Bool :=
   let sel := ndsIdx pts order
   (List.range pts.length).map (fun i => sel.contains i)
 
+/-! ### the loop, literally (with `idx` and index arithmetic) -/
+
+/-- one iteration of the `while idx < len(costs)` body, transcribed literally:
+`mask = any(costs < costs[idx]); mask[idx] = True; costs = costs[mask];
+idx = sum(mask[:idx]) + 1`.  Returns `none` when the loop condition is false. -/
+def loopStep (costs : List Row) (idx : Nat) : Option (List Row × Nat) :=
+  match costs[idx]? with
+  | none => none
+  | some pivot =>
+    let keep := costs.zipIdx.filter (fun (q, k) => k == idx || !wdRow pivot q)
+    some (keep.map (·.1), (keep.filter (fun (_, k) => k < idx)).length + 1)
+
+/-- the whole loop (fuel = an upper bound on the number of iterations, `len(costs)` suffices) -/
+def loopIdx : Nat → List Row → Nat → List Row
+  | 0, costs, _ => costs
+  | fuel + 1, costs, idx =>
+    match loopStep costs idx with
+    | none => costs
+    | some (costs', idx') => loopIdx fuel costs' idx'
+
 /-! ### ranked peeling (`non_dominated_set_ranked`) -/
 
 /-- One `non_dominated_set(y, return_mask=True)` call on the remaining rows:
